@@ -55,6 +55,10 @@ def jobs(tier):
         out.append(("rename.%s" % ("exists" if exists else "free"), "job_rename", dict(exists=exists)))
     out.append(("rename.exists.case-variant", "job_rename", dict(exists=True, target="NAME.torrent")))
     out.append(("rename.same-name", "job_rename", dict(exists=True, target="name.torrent")))
+    out.append(("rename.exists.same-size-and-time", "job_rename", dict(exists=True, same_stamp=True)))
+    for version in (1, 3):
+        for how in ("flag", "config"):
+            out.append(("create-fails.v%d.out-by-%s" % (version, how), "job_create_fails", dict(version=version, how=how)))
     for version in (1, 2, 3):
         for pname in ("Backup.Torrent", "name.torrent", ".torrent"):
             if q and (version + len(pname)) % 2:
@@ -221,7 +225,32 @@ def job_create(E, version, shape, outkind, magnet=False, pname=None, _mutants=No
         E.witnesses.setdefault(k, True)
 
 
-def job_rename(E, exists, target="abc123.torrent", mname=None, _mutants=None):
+def job_create_fails(E, version, how, _mutants=None):
+    """A create that fails (the content path does not exist) while a metafile already sits at the output path - given
+    by -o or by the configuration file: nothing at all changes."""
+    fs = AFS(cwd="/work")
+    fs.add("/data/name/a", ("f", 0), E.int("s0", 1, 100))
+    fs.mkdirs("/out")
+    fs.mkdirs("/cfg")
+    fs.add_token("/out/x.torrent", BenTok({"old": 1}))
+    argv = ["create", "--meta-version", str(version), "--piece-length", "14", "--prog", "0"]
+    if how == "flag":
+        argv += ["-o", "/out/x.torrent"]
+    else:
+        fs.add_token("/cfg/t.ini", ("INI", {"config": {"out": "/out/x.torrent", "comment": "c"}}))
+        argv += ["--config", "--config-path", "/cfg/t.ini"]
+    argv += ["/data/nmae"]                 # mistyped
+    snap = fs.snapshot()
+    w = World(fs, mutants=_mutants)
+    ok, res = run_cli(E, w, argv, "C18.create-fails")
+    E.check(not ok, "C18.create-fails.reports-failure", "create of a missing path returned normally")
+    d = fs.diff(snap)
+    E.check(not d, "C18.create-fails.nothing-changes", "a failed create changed the filesystem: %r" % (d[:4],))
+    for k in WITNESSES:
+        E.witnesses.setdefault(k, True)
+
+
+def job_rename(E, exists, target="abc123.torrent", mname=None, same_stamp=False, _mutants=None):
     fs = AFS()
     meta = concrete_meta(1)
     victim = "/t/dl/name.torrent"
@@ -236,6 +265,9 @@ def job_rename(E, exists, target="abc123.torrent", mname=None, _mutants=None):
     fs.add_token(tpath, BenTok(ben_copy(meta)))
     if exists and target != "name.torrent":
         fs.add_token(victim, BenTok({"other": 1}))
+        if same_stamp:
+            # another metafile of (possibly) the same size with the same modification time (archive extraction, rsync -t)
+            fs.mtime[victim] = fs.mtime[tpath]
         E.witnesses["rename refused"] = True
     fs.add("/t/dl/x.bin", ("x", 0), E.int("s0", 0, 100))
     snap = fs.snapshot()
@@ -357,6 +389,30 @@ def replay(params, model, notes, workdir, seed):
         if expect not in after:
             bad.append("C18.create.outfile-written")
         return bad
+    if "how" in params:
+        data = os.path.join(workdir, "data", "name", "a")
+        refconc.write_file(data, b"x" * int(model.get("s0", 1)))
+        out = os.path.join(workdir, "out")
+        os.makedirs(out)
+        refconc.write_file(os.path.join(out, "x.torrent"), b"d3:oldi1ee")
+        argv = ["create", "--meta-version", str(params["version"]), "--piece-length", "14", "--prog", "0"]
+        if params["how"] == "flag":
+            argv += ["-o", os.path.join(out, "x.torrent")]
+        else:
+            ini = os.path.join(workdir, "t.ini")
+            with open(ini, "w") as f:
+                f.write("[config]\nout = %s\ncomment = c\n" % os.path.join(out, "x.torrent"))
+            argv += ["--config", "--config-path", ini]
+        argv += [os.path.join(workdir, "data", "nmae")]
+        before = refconc.snapshot(workdir)
+        ok, res = run(argv)
+        after = refconc.snapshot(workdir)
+        bad = []
+        if ok:
+            bad.append("C18.create-fails.reports-failure")
+        if after != before:
+            bad.append("C18.create-fails.nothing-changes: %r" % sorted(k for k in set(before) | set(after) if before.get(k) != after.get(k)))
+        return bad
     # rename
     from harness import c07
     base = c07.conc_base(1, {})
@@ -369,11 +425,22 @@ def replay(params, model, notes, workdir, seed):
     refconc.write_file(os.path.join(d, target), refconc.bencode(base))
     if params["exists"] and target != "name.torrent":
         refconc.write_file(victim, b"d5:otheri1ee")
+        if params.get("same_stamp"):
+            # same size and same modification time as the file being renamed, different bytes
+            n = os.path.getsize(os.path.join(d, target))
+            other = bytearray(open(os.path.join(d, target), "rb").read())
+            other[-2] ^= 1
+            with open(victim, "wb") as f:
+                f.write(bytes(other)[:n])
+            st = os.stat(os.path.join(d, target))
+            os.utime(victim, ns=(st.st_atime_ns, st.st_mtime_ns))
     before = refconc.snapshot(workdir)
     ok, res = run(["rename", os.path.join(d, target)])
     after = refconc.snapshot(workdir)
     if target == "name.torrent":
         return [] if after == before else ["C18.rename.same-name-changes-nothing"]
+    if params.get("same_stamp"):
+        return [] if (not ok and after == before) else ["C18.rename.never-replaces-existing"]
     if params.get("mname"):
         return [] if (os.path.exists(victim) and open(victim, "rb").read() == b"d5:otheri1ee") else ["C18.rename.never-replaces-existing"]
     if params["exists"]:
